@@ -43,7 +43,9 @@ Check(e) ==
            LET own == IF e.kind = "result" THEN OwnOf(e.c, e.seq, l) ELSE {} IN
            IF ~(Range(e.anns) \subseteq own) THEN "C12.AnnotationLeak." \o e.kind ELSE ""
       [] e.e = "Saw" ->
-           IF ~(Range(e.anns) \subseteq {e.tok}) THEN "C12.ClientSeesForeignAnnotation" ELSE ""
+           IF ~(Range(e.anns) \subseteq {e.tok}) THEN "C12.ClientSeesForeignAnnotation"
+           \* hs: the annotation of the handshake answer is still what the client sees after the call
+           ELSE IF e.hs THEN "C12.ClientSeesHandshakeAnnotationAfterCall" ELSE ""
       [] OTHER -> ""
 Step == /\ l <= Len(Tr) /\ l' = l + 1 /\ t' = t
         /\ LET c == Check(Tr[l]) IN bad' = IF c # "" THEN Flag(c) ELSE bad
